@@ -16,11 +16,6 @@ import (
 	"github.com/gobwas/ws"
 )
 
-type vStubAddr struct{}
-
-func (vStubAddr) Network() string { return "tcp" }
-func (vStubAddr) String() string  { return "stub" }
-
 // vScriptConn is a net.Conn that records writes and serves a scripted answer.
 type vScriptConn struct {
 	wrote  []byte
@@ -37,7 +32,10 @@ func (c *vScriptConn) Read(p []byte) (int, error) {
 	c.pos += n
 	return n, nil
 }
-func (c *vScriptConn) Write(p []byte) (int, error)        { c.wrote = append(c.wrote, p...); return len(p), nil }
+func (c *vScriptConn) Write(p []byte) (int, error) {
+	c.wrote = append(c.wrote, p...)
+	return len(p), nil
+}
 func (c *vScriptConn) Close() error                       { c.closed = true; return nil }
 func (c *vScriptConn) LocalAddr() net.Addr                { return vStubAddr{} }
 func (c *vScriptConn) RemoteAddr() net.Addr               { return vStubAddr{} }
